@@ -263,7 +263,7 @@ FmtC(e, pre, post) ==
                  /\ (e.a.py.haswidth = 1) = p.sf.haswidth /\ (p.sf.haswidth => e.a.py.width = p.sf.width)
                  /\ (e.a.py.amb = 1) = p.sf.ambiguous
                  /\ (e.a.py.hasansi = 1) = p.hasansi /\ e.a.py.ansi = p.ansi)
-      claim == p.valid /\ ~p.sf.ambiguous /\ ~p.colonfill /\ e.a.ansi_ok = 1 /\ e.a.how # "fstr"
+      claim == p.valid /\ ~p.sf.ambiguous /\ e.a.ansi_ok = 1 /\ e.a.how # "fstr"
   IN Cl("audit.fmt_parse", TRUE, same)
   \o Cl("C12.format_invalid_raises", ~p.valid /\ e.a.how # "fstr", (~p.valid /\ e.a.how # "fstr") => e.out = "raise:ValueError")
   \o Cl("C12.format_defined", claim, claim => e.out = "ok")
